@@ -66,6 +66,11 @@ def cases(tier):
             for req in (0.5, 2.5):
                 for re in ('lam', 'turb'):
                     out.append(dict(base, unit=unit, req=req, re=re, wall='none'))
+        # dumps at an interval of 1.3 / 2.3 / 3.4 steps
+        for di in (1.3, 2.3, 3.4):
+            for re in ('vlow', 'lam', 'turb'):
+                for unit in ((None, 'cm') if re == 'lam' else (None,)):
+                    out.append(dict(base, dumpint=di, re=re, wall='none', unit=unit))
         # a request just above a sub-millimetre limit (an absolute margin would let it through)
         for req in (1.05, 1.3):
             for re in ('vlow', 'lam'):
@@ -222,6 +227,8 @@ def build(c, power):
         scn['power']['scaling'] = c['pscale']
     if c.get('req_m') is not None:
         scn['setup']['axial_mesh_size'] = float(c['req_m'])     # metres here; converted below with the rest
+    if c.get('dump_m') is not None:
+        scn['setup']['Dump'] = {'coolant': True, 'interval': float(c['dump_m'])}
     if c.get('cell_at') is not None:
         for spec in scn['power']['asm'].values():
             spec['cells'] = [0.0, float(c['cell_at']), spec['cells'][-1]]
@@ -442,6 +449,16 @@ def run_case(c):
                 r['info'] = {'site': site_of(e)}
                 return r
         c = dict(c, req_m=float('%.3g' % (c['req'] * lim)))
+    if c.get('dumpint') is not None:
+        # csv dumps at an interval of a few steps (reporting only: the step stays within the limit)
+        with S.Built(build(dict(c, dumpint=None), 'zero')) as b0:
+            try:
+                lim = float(b0.reactor().req_dz)
+            except SystemExit as e:
+                r['outcome'] = 'rejected-at-setup'
+                r['info'] = {'site': site_of(e)}
+                return r
+        c = dict(c, dump_m=float('%.4g' % (c['dumpint'] * lim)))
     if c.get('bnd') == 'just-past':
         with S.Built(build(dict(c, bnd=None), 'zero')) as b0:
             try:
